@@ -123,6 +123,9 @@ func init() {
 	})
 	c07 := checkDefs["C07"]
 	c07.Scens = append(c07.Scens, scenBudget{"backup", 5000, 150000})
+	c04.Scens = append(c04.Scens, scenBudget{"backup", 4000, 120000}, scenBudget{"backup_race", 6000, 200000})
+	c05 := checkDefs["C05"]
+	c05.Scens = append(c05.Scens, scenBudget{"backup_race", 5000, 200000})
 	c14.Scens = append(c14.Scens, scenBudget{"backup", 4000, 120000})
 
 	defCheck(&checkDef{Prop: "C15", Level: "exploration",
